@@ -1,5 +1,100 @@
-From Coq Require Import List.
-From MirV Require Import C14.DataSection C14.DataSectionProofs.
-Theorem placeholder_c14 : True.
-Proof. exact placeholder14. Qed.
-Print Assumptions placeholder_c14.
+(* Property C14: loaded data items form contiguous, correctly initialised sections.
+   Only the property theorems, each closed by [exact] and followed by Print Assumptions.
+   Model: C14/DataSection.v (mir.c load_bss_data_section as called by MIR_load_module, and the
+   ref/expr initialisation of MIR_link); proofs: C14/DataSectionProofs.v; examples:
+   C14/DataSectionExamples.v.
+
+   Vocabulary: [place_of all i] = Some {p_head; p_off}: item i of the module [all] is placed in
+   the section whose head is item p_head, p_off bytes from the section's start (None: the item has
+   no place).  [members all h] are the items the SIZE pass of load_bss_data_section walks from
+   head h, [sec_alloc all h] what it passes to malloc; [image base all h] is the memory the
+   PLACEMENT pass and MIR_link write, byte by byte (None = unspecified), given the addresses
+   [base] of sections, functions and imports. *)
+From Coq Require Import List Arith ZArith.
+Import ListNotations.
+From MirV Require Import Base.W64 C14.DataSection C14.DataSectionProofs C14.DataSectionExamples.
+
+(* Every data/bss/ref/lref/expr item gets a place and nothing else does. *)
+Theorem section_partition : forall all i,
+  place_of all i = None <-> ~ (exists it, nth_error all i = Some it /\ is_data_like it = true).
+Proof. exact section_partition_proof. Qed.
+Print Assumptions section_partition.
+
+(* A named item, the first item of the module, and an item that follows a non-data item always
+   start a section of their own, at offset 0. *)
+Theorem section_head_starts : forall all i it,
+  nth_error all i = Some it -> is_data_like it = true ->
+  (is_named it = true \/ i = 0 \/
+   exists prev, nth_error all (i - 1) = Some prev /\ is_data_like prev = false) ->
+  place_of all i = Some {| p_head := i; p_off := 0 |}.
+Proof. exact section_head_starts_proof. Qed.
+Print Assumptions section_head_starts.
+
+(* An anonymous data-like item directly after a placed item lies in the same section exactly
+   size(previous) bytes further: declaration order, no gap.  (Together with the two theorems above
+   this determines the place of every item.) *)
+Theorem section_contiguous : forall all i p it it',
+  nth_error all i = Some it -> place_of all i = Some p ->
+  nth_error all (S i) = Some it' -> is_data_like it' = true -> is_named it' = false ->
+  place_of all (S i) = Some {| p_head := p_head p; p_off := p_off p + size_of all it |}.
+Proof. exact section_contiguous_proof. Qed.
+Print Assumptions section_contiguous.
+
+(* Each item is at the offset given by the sizes of its predecessors in the section. *)
+Theorem section_offset_is_sum : forall all i p it,
+  nth_error all i = Some it -> place_of all i = Some p ->
+  p_off p = sum_sizes all (firstn (i - p_head p) (members all (p_head p))).
+Proof. exact offset_is_sum_proof. Qed.
+Print Assumptions section_offset_is_sum.
+
+(* The size pass agrees with the placement pass: the block it allocates contains every member,
+   is a multiple of 8 and wastes fewer than 8 bytes. *)
+Theorem section_size_covers : forall all i p it,
+  nth_error all i = Some it -> place_of all i = Some p ->
+  p_off p + size_of all it <= sum_sizes all (members all (p_head p)) /\
+  sum_sizes all (members all (p_head p)) <= sec_alloc all (p_head p) /\
+  sec_alloc all (p_head p) < sum_sizes all (members all (p_head p)) + 8 /\
+  sec_alloc all (p_head p) mod 8 = 0.
+Proof. exact section_size_covers_proof. Qed.
+Print Assumptions section_size_covers.
+
+(* What is found at an item's place is the item's contents ... *)
+Theorem section_contents : forall base all i p it,
+  nth_error all i = Some it -> place_of all i = Some p ->
+  slice (image base all (p_head p)) (p_off p) (size_of all it) = content base all it.
+Proof. exact section_contents_proof. Qed.
+Print Assumptions section_contents.
+
+(* ... for data the declared elements, little-endian, in order; for bss zeros; *)
+Theorem data_contents : forall base all i p nm t els,
+  nth_error all i = Some (IData nm t els) -> place_of all i = Some p ->
+  slice (image base all (p_head p)) (p_off p) (length els * tsize t)
+  = map Some (flat_map (le_bytes (tsize t)) els).
+Proof. exact data_contents_proof. Qed.
+Print Assumptions data_contents.
+
+Theorem bss_contents : forall base all i p nm len,
+  nth_error all i = Some (IBss nm len) -> place_of all i = Some p ->
+  slice (image base all (p_head p)) (p_off p) len = repeat (Some 0%Z) len.
+Proof. exact bss_contents_proof. Qed.
+Print Assumptions bss_contents.
+
+(* ... for a ref the referenced item's address plus the displacement (mod 2^64); *)
+Theorem ref_value : forall base all i p nm target disp,
+  nth_error all i = Some (IRef nm target disp) -> place_of all i = Some p ->
+  exists bytes,
+    slice (image base all (p_head p)) (p_off p) 8 = map Some bytes /\
+    decode_le bytes = u64 (addr_of base all target + disp).
+Proof. exact ref_value_proof. Qed.
+Print Assumptions ref_value.
+
+(* ... for an expr the value of its expression function, truncated to the result type. *)
+Theorem expr_value : forall base all i p nm fn rt body,
+  nth_error all i = Some (IExpr nm fn) -> nth_error all fn = Some (IFunc rt body) ->
+  place_of all i = Some p ->
+  let n := match rt with TLD => 10 | _ => tsize rt end in
+  exists bytes,
+    firstn n (slice (image base all (p_head p)) (p_off p) (tsize rt)) = map Some bytes /\
+    decode_le bytes = (eval base all body mod 256 ^ Z.of_nat n)%Z.
+Proof. exact expr_value_proof. Qed.
+Print Assumptions expr_value.
